@@ -267,6 +267,25 @@ async def run_steps(env: Env, node: NodeSpec, phase: str, steps: list):
             v = await get_resource(t, name, optional=True)
             env.values[(node.idx, label)] = v
             env.ev("opt", node.idx, label)
+        elif k == "optnowait":
+            # ("optnowait", label, type, name): the synchronous OPTIONAL lookup
+            _, label, t, name = st
+            try:
+                env.values[(node.idx, label)] = get_resource_nowait(t, name, optional=True)
+            except Exception as e:
+                env.values[(node.idx, label)] = e
+            env.ev("nowait", node.idx, label)
+        elif k == "tdnested":
+            # a teardown callback that registers a further callback while the teardown is running (e.g. a lazily created resource's clean-up)
+            label = st[1]
+
+            def cb_nested(label=label):
+                env.ev("td", label)
+                env.ev("td_registered_late", "late-" + label)
+                add_teardown_callback(lambda: env.ev("td", "late-" + label))
+
+            add_teardown_callback(cb_nested)
+            env.ev("td_registered", label)
         elif k == "nowait":
             _, label, t, name = st
             try:
